@@ -32,6 +32,47 @@ def native_try(cfg, res, fn, args, want, tag):
     return rc != 0, path, (so or "").strip()
 
 
+SCAN_T = """#include <stdio.h>
+#include "a/a.h"
+#include "a/math.h"
+/* C19: an isqrt obligation could not be proved on this tree (see the evidence); this program looks for a concrete input on which
+   the real function violates r*r <= x < (r+1)*(r+1), among the neighbours of perfect squares r^2-1, r^2, r^2+2r for r = 2^k + d */
+typedef unsigned __int128 u128;
+int main(void)
+{
+    static const long long ds[] = {-2, -1, 0, 1, 2, 3, 77, 12345};
+    for (int k = 1; k <= %(half)d; k++)
+        for (unsigned i = 0; i < sizeof ds / sizeof *ds; i++)
+        {
+            u128 r = ((u128)1 << k) + (u128)ds[i];
+            if (r == 0 || r >> %(half)d) { if (!(r >> %(half)d)) continue; r = ((u128)1 << %(half)d) - 1 - i; }
+            u128 xs[3] = {r * r - 1, r * r, r * r + 2 * r};
+            for (int j = 0; j < 3; j++)
+            {
+                if (xs[j] >> %(w)d) continue;
+                %(ty)s x = (%(ty)s)xs[j];
+                u128 s = %(fn)s(x);
+                if (!(s * s <= x && x < (s + 1) * (s + 1)))
+                {
+                    printf("%(fn)s(%%llu) = %%llu: not the integer square root\\n", (unsigned long long)x, (unsigned long long)s);
+                    return 1;
+                }
+            }
+        }
+    printf("no counterexample among the perfect-square neighbours\\n");
+    return 0;
+}
+"""
+
+
+def native_scan(cfg, res, fn, w):
+    text = SCAN_T % dict(fn=fn, w=w, half=w // 2, ty="a_u%d" % w)
+    path = res.save_replay("scan_%s.c" % fn, text)
+    exe = native_prog(cfg, path, repo_sources(SRCS), name="scan_%s" % fn, san=True)
+    rc, so, se, _ = run([exe], timeout=120, env=dict(os.environ, ASAN_OPTIONS="detect_leaks=0"))
+    return rc != 0, path, (so or "").strip()
+
+
 def loop_proofs(res, cfg):
     """Full-width, unbounded-iteration proofs of isqrt and gcd by loop invariant on the real IR (harness/llsym/loopinv.py)."""
     import math, time
@@ -92,6 +133,15 @@ def loop_proofs(res, cfg):
             if bad:
                 confirmed = (args, path, out)
                 break
+        if not confirmed and kind == "isqrt" and any(g["bad"] for g in groups.values()):
+            # nothing proved and no model to try (e.g. code the executor cannot encode, such as a floating-point shortcut):
+            # look for a replayable input among the neighbours of perfect squares before giving up with a machinery error
+            try:
+                bad, path, out = native_scan(cfg, res, fn, w)
+                if bad:
+                    confirmed = (("scan",), path, out)
+            except MachineryError as e:
+                res.error("native scan for %s does not build: %s" % (fn, str(e)[-300:]))
         for gname, g in sorted(groups.items()):
             ok = not g["bad"]
             res.ob("loop-invariant/" + gname, "holds" if ok else ("violated" if confirmed else "inconclusive"), engine="llsym+z3-int", obligations=g["n"], max_query_s=round(g["dt"], 3))
